@@ -331,6 +331,10 @@ int _vnacal_new_add_common(vnacal_new_add_arguments_t vnaa)
 	}
 	goto out;
     }
+    if (s_matrix == NULL) {
+	_vnacal_error(vcp, VNAERR_USAGE, "%s: NULL s matrix", function);
+	goto out;
+    }
 
     /*
      * Collect per parameter type information used below.
